@@ -55,10 +55,10 @@ func (e *Engine) GetValMainAddress() common.Address {
 
 // GenVal is one genesis validator (plain data).
 type GenVal struct {
-	ID      int    `json:"id"`               // identity index
-	Role    uint8  `json:"role"`             // 1 chancellor, 2 senator, 3 house
-	YOU     int64  `json:"you"`              // whole tokens
-	Sub     uint64 `json:"sub,omitempty"`    // extra sub-unit part in 1e15 LU steps (0..999)
+	ID      int    `json:"id"`            // identity index
+	Role    uint8  `json:"role"`          // 1 chancellor, 2 senator, 3 house
+	YOU     int64  `json:"you"`           // whole tokens
+	Sub     uint64 `json:"sub,omitempty"` // extra sub-unit part in 1e15 LU steps (0..999)
 	Offline bool   `json:"offline,omitempty"`
 }
 
